@@ -128,75 +128,84 @@ def addOfHtlc (p : Htlc × Nat) (addL addR : Nat) : Entry :=
 def resOf (t : ETy) (u og : Entry) : Entry :=
   { ty := t, amt := og.amt, logIndex := u.logIndex, parent := og.htlcIndex, hash := og.hash }
 
-/-- one update of `restorePendingLocalUpdates` (`logUpdateToPayDesc` + append). -/
+/-- `logUpdateToPayDesc(update, remoteUpdateLog, pendingHeight)`. -/
+def pendPd (ph : Nat) (lR : Log) (u : Entry) : Except RErr Entry :=
+  if u.ty == .add then .ok { u with addL := 0, addR := ph, rmvL := 0, rmvR := 0 }
+  else if u.ty == .feeUpd then .ok { ty := .feeUpd, amt := u.amt, logIndex := u.logIndex, addR := ph, rmvR := ph }
+  else match lookupHtlc lR.entries u.parent with
+    | none => .error .noParent
+    | some og => .ok { resOf u.ty u og with rmvR := ph }
+
+/-- entries written by old versions carry no log index for fee updates. -/
+def fixFeeIdx (lL : Log) (pd : Entry) : Entry :=
+  if pd.ty == .feeUpd && pd.logIndex == 0 && decide (lL.logIndex > 0) then { pd with logIndex := lL.logIndex } else pd
+
+/-- the index assertions of `restorePendingLocalUpdates` and the append. -/
+def pendAppend (lL lR : Log) (pd : Entry) : Except RErr (Log × Log) :=
+  if pd.logIndex != lL.logIndex then .error .logIndexMismatch
+  else if pd.ty == .add then
+    (if pd.htlcIndex != lL.htlcCounter then .error .htlcIndexMismatch else .ok (lL.appendHtlc pd, lR))
+  else if pd.ty == .feeUpd then .ok (lL.appendUpdate pd, lR)
+  else .ok (lL.appendUpdate pd, lR.markModified pd.parent)
+
+/-- one update of `restorePendingLocalUpdates`. -/
 def restorePendStep (ph : Nat) (acc : Except RErr (Log × Log)) (u : Entry) : Except RErr (Log × Log) :=
   match acc with
   | .error e => .error e
   | .ok (lL, lR) =>
-    let pd? : Except RErr Entry :=
-      match u.ty with
-      | .add => .ok { u with addL := 0, addR := ph, rmvL := 0, rmvR := 0 }
-      | .feeUpd => .ok { ty := .feeUpd, amt := u.amt, logIndex := u.logIndex, addR := ph, rmvR := ph }
-      | t => match lookupHtlc lR.entries u.parent with
-        | none => .error .noParent
-        | some og => .ok { resOf t u og with rmvR := ph }
-    match pd? with
+    match pendPd ph lR u with
     | .error e => .error e
-    | .ok pd0 =>
-      -- entries written by old versions carry no log index for fee updates
-      let pd := if pd0.ty == .feeUpd && pd0.logIndex == 0 && decide (lL.logIndex > 0)
-                then { pd0 with logIndex := lL.logIndex } else pd0
-      if pd.logIndex != lL.logIndex then .error .logIndexMismatch else
-      match pd.ty with
-      | .add => if pd.htlcIndex != lL.htlcCounter then .error .htlcIndexMismatch
-                else .ok (lL.appendHtlc pd, lR)
-      | .feeUpd => .ok (lL.appendUpdate pd, lR)
-      | _ => .ok (lL.appendUpdate pd, lR.markModified pd.parent)
+    | .ok pd0 => pendAppend lL lR (fixFeeIdx lL pd0)
 
-/-- one update of `restorePendingRemoteUpdates` (`remoteLogUpdateToPayDesc` + restoreUpdate). -/
+/-- `remoteLogUpdateToPayDesc(update, localUpdateLog, localHeight)`. -/
+def uaPd (lh : Nat) (lL : Log) (u : Entry) : Except RErr Entry :=
+  if u.ty == .add then .ok { u with addL := lh, addR := 0, rmvL := 0, rmvR := 0 }
+  else if u.ty == .feeUpd then .ok { ty := .feeUpd, amt := u.amt, logIndex := u.logIndex, addL := lh, rmvL := lh }
+  else match lookupHtlc lL.entries u.parent with
+    | none => .error .noParent
+    | some og => .ok { resOf u.ty u og with rmvL := lh }
+
+/-- an update already covered by the pending remote commitment gets its height. -/
+def uaHeights (pend : Option Commit) (pd : Entry) : Entry :=
+  match pend with
+  | some p =>
+    if pd.logIndex < p.theirMsg then
+      (if pd.ty == .feeUpd then { pd with addR := p.height, rmvR := p.height } else { pd with rmvR := p.height })
+    else pd
+  | none => pd
+
+/-- one update of `restorePendingRemoteUpdates`. -/
 def restoreUaStep (lh : Nat) (pend : Option Commit) (acc : Except RErr (Log × Log)) (u : Entry) :
     Except RErr (Log × Log) :=
   match acc with
   | .error e => .error e
   | .ok (lL, lR) =>
-    let pd? : Except RErr Entry :=
-      match u.ty with
-      | .add => .ok { u with addL := lh, addR := 0, rmvL := 0, rmvR := 0 }
-      | .feeUpd => .ok { ty := .feeUpd, amt := u.amt, logIndex := u.logIndex, addL := lh, rmvL := lh }
-      | t => match lookupHtlc lL.entries u.parent with
-        | none => .error .noParent
-        | some og => .ok { resOf t u og with rmvL := lh }
-    match pd? with
+    match uaPd lh lL u with
     | .error e => .error e
     | .ok pd =>
-      if pd.logIndex ≥ lR.logIndex then .error .unsignedRemote else
-      if pd.isAdd then .ok (lL, lR) else
-      let h? : Option Nat := match pend with
-        | some p => if pd.logIndex < p.theirMsg then some p.height else none
-        | none => none
-      match pd.ty with
-      | .feeUpd =>
-        let pd' := match h? with | some h => { pd with addR := h, rmvR := h } | none => pd
-        .ok (lL, { lR with entries := lR.entries ++ [pd'] })
-      | _ =>
-        let pd' := match h? with | some h => { pd with rmvR := h } | none => pd
-        .ok (lL.markModified pd'.parent, { lR with entries := lR.entries ++ [pd'] })
+      if pd.logIndex ≥ lR.logIndex then .error .unsignedRemote
+      else if pd.ty == .add then .ok (lL, lR)
+      else if pd.ty == .feeUpd then .ok (lL, { lR with entries := lR.entries ++ [uaHeights pend pd] })
+      else .ok (lL.markModified pd.parent, { lR with entries := lR.entries ++ [uaHeights pend pd] })
 
-/-- one update of `restorePeerLocalUpdates` (`localLogUpdateToPayDesc` + restoreUpdate). -/
+/-- `localLogUpdateToPayDesc(update, remoteUpdateLog, remoteHeight)`. -/
+def rulPd (rh : Nat) (lR : Log) (u : Entry) : Except RErr Entry :=
+  if u.ty == .add then .error .unknownMsg
+  else if u.ty == .feeUpd then .ok { ty := .feeUpd, amt := u.amt, logIndex := u.logIndex, addR := rh, rmvR := rh }
+  else match lookupHtlc lR.entries u.parent with
+    | none => .error .noParent
+    | some og => .ok { resOf u.ty u og with rmvR := rh }
+
+/-- one update of `restorePeerLocalUpdates`. -/
 def restoreRulStep (rh : Nat) (acc : Except RErr (Log × Log)) (u : Entry) : Except RErr (Log × Log) :=
   match acc with
   | .error e => .error e
   | .ok (lL, lR) =>
-    match u.ty with
-    | .add => .error .unknownMsg
-    | .feeUpd =>
-      let pd : Entry := { ty := .feeUpd, amt := u.amt, logIndex := u.logIndex, addR := rh, rmvR := rh }
-      .ok ({ lL with entries := lL.entries ++ [pd] }, lR)
-    | t => match lookupHtlc lR.entries u.parent with
-      | none => .error .noParent
-      | some og =>
-        let pd : Entry := { resOf t u og with rmvR := rh }
-        .ok ({ lL with entries := lL.entries ++ [pd] }, lR.markModified pd.parent)
+    match rulPd rh lR u with
+    | .error e => .error e
+    | .ok pd =>
+      if pd.ty == .feeUpd then .ok ({ lL with entries := lL.entries ++ [pd] }, lR)
+      else .ok ({ lL with entries := lL.entries ++ [pd] }, lR.markModified pd.parent)
 
 /-- the two commitment chains after `restoreCommitState`. -/
 def restoreChains (d : Disk) : CChain × CChain :=
@@ -224,13 +233,15 @@ def restoreBaseLogs (d : Disk) : Log × Log :=
       logIndex := d.rc.cm.ourMsg, htlcCounter := d.rc.cm.ourHtlc }
   (logL, logR)
 
+/-- `restoreStateLogs`: the local log is rebuilt in log-index order (remote-unsigned-local
+    updates, then the updates of the pending commit diff), then the unsigned-acked remote updates. -/
 def restoreLogs (d : Disk) : Except RErr (Log × Log) :=
   let base : Except RErr (Log × Log) := .ok (restoreBaseLogs d)
-  let s1 := match d.pend with
-    | some p => p.2.foldl (restorePendStep p.1.cm.height) base
-    | none => base
-  let s2 := (d.ua.getD []).foldl (restoreUaStep d.lc.cm.height (d.pend.map (fun p => p.1.cm))) s1
-  (d.rul.getD []).foldl (restoreRulStep d.rc.cm.height) s2
+  let s1 := (d.rul.getD []).foldl (restoreRulStep d.rc.cm.height) base
+  let s2 := match d.pend with
+    | some p => p.2.foldl (restorePendStep p.1.cm.height) s1
+    | none => s1
+  (d.ua.getD []).foldl (restoreUaStep d.lc.cm.height (d.pend.map (fun p => p.1.cm))) s2
 
 /-- `NewLightningChannel`. -/
 def restore (cfg : Cfg) (d : Disk) : Except RErr Node :=
@@ -295,21 +306,21 @@ def fwdPkgOf (n : Node) : FwdPkg :=
     resolves := (n.logR.entries.filter (fun e => e.isRes && e.rmvR != 0 && e.rmvL != 0 && e.rmvR == remoteTail &&
               decide (e.rmvL ≤ localTail))).map Entry.parent }
 
-/-- `ReceiveRevocation` incl. `AdvanceCommitChainTail`. -/
+/-- `ReceiveRevocation` incl. `AdvanceCommitChainTail`.  The remote-unsigned-local updates are
+    always written; the unsigned-acked updates are filtered if the key exists (it is created by the
+    node's first `UpdateCommitment`). -/
 def St.receiveRevocation (s : St) : Err × St :=
   match s.mem.chainR.pend with
   | [] => (.noPending, s)
   | _ :: _ =>
     let newRc := match s.disk.pend with | some p => p.1 | none => s.disk.rc
-    let d0 : Disk := { s.disk with rc := newRc, pend := none, stored := s.disk.stored + 1,
-                                   revLog := s.disk.revLog ++ [s.disk.rc.cm.height],
-                                   fwd := s.disk.fwd ++ [fwdPkgOf s.mem] }
-    -- without the unsigned-acked key the transaction ends before the two update lists are written
-    let d1 : Disk := match s.disk.ua with
-      | none => d0
-      | some ua => { d0 with ua := some (ua.filter (fun u => decide (newRc.cm.theirMsg ≤ u.logIndex))),
-                             rul := some (unsignedLocal s.mem) }
-    (.ok, { s with mem := s.mem.receiveRevocation.2, disk := d1 })
+    (.ok, { s with mem := s.mem.receiveRevocation.2,
+                   disk := { s.disk with rc := newRc, pend := none, stored := s.disk.stored + 1,
+                                         revLog := s.disk.revLog ++ [s.disk.rc.cm.height],
+                                         fwd := s.disk.fwd ++ [fwdPkgOf s.mem],
+                                         rul := some (unsignedLocal s.mem),
+                                         ua := s.disk.ua.map (fun ua =>
+                                           ua.filter (fun u => decide (newRc.cm.theirMsg ≤ u.logIndex))) } })
 
 /-! ## crash / restart -/
 
